@@ -133,3 +133,46 @@ func factsGlue() {
 		boolFact("Deliver", spec.fact, len(bad) == 0, src)
 	}
 }
+
+// sendPrologue: how switchboard.send begins. Either with the single unconditional `sb.valve.txWait(len(data))` (every
+// sender reserves in the bucket at once), or with the turnstile around it:
+//
+//	sb.txTurn <- struct{}{}; if broken { <-sb.txTurn; return 0, errBrokenSwitchboard }; sb.valve.txWait(len(data)); <-sb.txTurn
+//
+// (one sender of the session at a time, none once the switchboard is broken; nothing but the broken test and the wait
+// happens while the turn is held - in particular no lock is taken). ok = one of the two; turnstile = the second.
+func sendPrologue(fn *ast.FuncDecl) (ok bool, turnstile bool) {
+	if fn == nil || fn.Body == nil || len(fn.Body.List) == 0 {
+		return false, false
+	}
+	l := fn.Body.List
+	if show(l[0]) == "sb.valve.txWait(len(data))" {
+		return true, false
+	}
+	if len(l) < 4 {
+		return false, false
+	}
+	if show(l[0]) != "sb.txTurn <- struct{}{}" {
+		return false, false
+	}
+	is, isIf := l[1].(*ast.IfStmt)
+	if !isIf || is.Init != nil || is.Else != nil || show(is.Cond) != "atomic.LoadUint32(&sb.broken) == 1" || len(is.Body.List) != 2 ||
+		show(is.Body.List[0]) != "<-sb.txTurn" || show(is.Body.List[1]) != "return 0, errBrokenSwitchboard" {
+		return false, false
+	}
+	if show(l[2]) != "sb.valve.txWait(len(data))" || show(l[3]) != "<-sb.txTurn" {
+		return false, false
+	}
+	// the turnstile is touched nowhere else in the function, and it is made with room for exactly one
+	rest := 0
+	for _, st := range l[4:] {
+		if strings.Contains(show(st), "sb.txTurn") {
+			rest++
+		}
+	}
+	made := false
+	if mk := fnOf(mx, "makeSwitchboard"); mk != nil {
+		made = strings.Contains(show(mk.Body), "txTurn:") && strings.Contains(show(mk.Body), "make(chan struct{}, 1)")
+	}
+	return rest == 0 && made, true
+}
